@@ -546,24 +546,28 @@ where
         let max_symbol_inclusive = self.quantizer.max_symbol_inclusive;
         let free_weight = self.quantizer.free_weight;
 
-        if symbol.borrow() < &min_symbol_inclusive || symbol.borrow() > &max_symbol_inclusive {
+        // Read the symbol only once so that we check exactly the value that we then use
+        // (`borrow` is user code and may not return the same value every time it gets called).
+        let symbol: Symbol = *symbol.borrow();
+
+        if symbol < min_symbol_inclusive || symbol > max_symbol_inclusive {
             return None;
         };
-        let slack = slack(*symbol.borrow(), min_symbol_inclusive);
+        let slack = slack(symbol, min_symbol_inclusive);
 
         // Round both cumulatives *independently* to fixed point precision.
-        let left_sided_cumulative = if symbol.borrow() == &min_symbol_inclusive {
+        let left_sided_cumulative = if symbol == min_symbol_inclusive {
             // Corner case: make sure that the probabilities add up to one. The generic
             // calculation in the `else` branch may lead to a lower total probability
             // because we're cutting off the left tail of the distribution.
             Probability::zero()
         } else {
             let non_leaky: Probability =
-                (free_weight * self.inner.distribution((*symbol.borrow()).into() - 0.5)).as_();
+                (free_weight * self.inner.distribution(symbol.into() - 0.5)).as_();
             non_leaky + slack
         };
 
-        let right_sided_cumulative = if symbol.borrow() == &max_symbol_inclusive {
+        let right_sided_cumulative = if symbol == max_symbol_inclusive {
             // Corner case: make sure that the probabilities add up to one. The generic
             // calculation in the `else` branch may lead to a lower total probability
             // because we're cutting off the right tail of the distribution and we're
@@ -571,7 +575,7 @@ where
             wrapping_pow2(PRECISION)
         } else {
             let non_leaky: Probability =
-                (free_weight * self.inner.distribution((*symbol.borrow()).into() + 0.5)).as_();
+                (free_weight * self.inner.distribution(symbol.into() + 0.5)).as_();
             non_leaky + slack + Probability::one()
         };
 
